@@ -16,7 +16,7 @@ PROPERTIES = {
         "technique": "deterministic simulation: seeded cooperative scheduling of evaluation generators with abandonment/gc faults, differential oracle against isolated evaluation, ddmin-minimised replay files",
         "tiers": {
             "quick": {"runs": 10000, "wall_s": 150, "triage_s": 60},
-            "thorough": {"runs": 600000, "wall_s": 3000, "triage_s": 300},
+            "thorough": {"runs": 600000, "wall_s": 3000, "triage_s": 300, "cfg": {"reentrant_p": 0.4}},
         },
         "cfg": {},
         "rule": "one run = one generated scenario (world, 1-3 query objects with explicit sharing of variables / condition nodes / query objects, 30% rule queries) + one op list (start/step/drain/close/drop/dropcycle/gc/the) in one of five schedule shapes, all drawn from splitmix64(VERIF_SEED, property, run index). Non-trivial: two tasks that share a variable, an expression or the query object had overlapping lifetimes, or a query object was evaluated again after an earlier (complete or abandoned) evaluation. Distinct: hash of (scenario shape without constants, op list).",
